@@ -1,5 +1,5 @@
 import P2.Driver.Lang
-import P2.Spec.LibSpec
+import P2.Spec.LibSpecExt
 /-! Protocol glue for C07: the `SPEC` request. The program (receiver chain of built-in calls) is
 evaluated by a small evaluator that sends every *covered* built-in through the eager reference
 `P2.LibSpec` and everything else (arguments, callbacks, literals, operators) through the reference
@@ -27,14 +27,20 @@ def specEval (fuel : Nat) : Nat → AST → Env → R SV
         let isField := match rv with
           | .val (.map kvs) => (match mapGet kvs name with | some (.sclos ..) => true | _ => false)
           | _ => false
-        if isField then liftV (eval statics methods fuel a env) else
+        if isField then
+          -- a closure stored in a field of that name is called (`m.lineFunc(3)`)
+          (match rv with
+           | .val (.map kvs) => (match mapGet kvs name with
+              | some f => do let vs ← specArgs fuel n args env; liftV (ap f vs)
+              | none => .err)
+           | _ => .err) else
         match methods (SV.typeName rv) name with
         | none => .err
         | some declared =>
           if declared > 0 ∧ declared ≠ args.length + 1 then .err else
           if !isCovered (SV.typeName rv) name then liftV (eval statics methods fuel a env) else do
           let vs ← specArgs fuel n args env
-          match LibSpec.method ap fuel name rv vs with
+          match LibSpec.methodX ap fuel name rv vs with
           | some r => r
           | none => .unmodelled
     | .call (.ident name) args =>
@@ -43,10 +49,16 @@ def specEval (fuel : Nat) : Nat → AST → Env → R SV
           if env.has name ∨ !isCoveredStatic name then liftV (eval statics methods fuel a env) else
           if declared ≥ 0 ∧ declared ≠ args.length then .err else do
           let vs ← specArgs fuel n args env
-          match staticFn ap fuel name vs with
+          match staticFnX ap fuel name vs with
           | some r => r
           | none => .unmodelled
         | none => liftV (eval statics methods fuel a env)
+    | .call f args => do
+        -- the callee is an expression (`l.createInterpolation(fx, fy)(x)`): it may be the result of a built-in
+        let fv ← specEval fuel n f env
+        let fv' ← svToVal fv
+        let vs ← specArgs fuel n args env
+        liftV (ap fv' vs)
     | .member m key => do
         match ← specEval fuel n m env with
         | .val (.map kvs) => liftV (R.ofOption (mapGet kvs key))
